@@ -131,3 +131,22 @@ Theorem C03_revoke_update_is_source :
     end.
 Proof. exact EnforcementGenProofs.gen_set_cp_revoke_is_model. Qed.
 Print Assumptions C03_revoke_update_is_source.
+
+(** ... and so are the two look-ups behind the retry rules ("a number is signed again only for the
+    identical point and content"; "an accepted revocation carries the secret of the point signed
+    for that number"): [num + 2] is only evaluated when [num + 1] is not the next number. *)
+Theorem C03_previous_point_lookup_is_source :
+  forall (prof : profile) (fr : EnforcementGenProofs.frame) (e : estate) (num : N),
+    num + 2 <= U64MAX ->
+    EnforcementGen.gen_get_previous_counterparty_point prof (EnforcementGenProofs.to_res fr e) num =
+    Val (prev_point_for e (num + 1) (num + 2)).
+Proof. exact EnforcementGenProofs.gen_prev_point_is_model. Qed.
+Print Assumptions C03_previous_point_lookup_is_source.
+
+Theorem C03_previous_info_lookup_is_source :
+  forall (prof : profile) (fr : EnforcementGenProofs.frame) (e : estate) (num : N),
+    num + 2 <= U64MAX ->
+    EnforcementGen.gen_get_previous_counterparty_commit_info prof (EnforcementGenProofs.to_res fr e) num =
+    Val (prev_info_for e (num + 1) (num + 2)).
+Proof. exact EnforcementGenProofs.gen_prev_info_is_model. Qed.
+Print Assumptions C03_previous_info_lookup_is_source.
